@@ -121,7 +121,7 @@ def run_batch(adapter, tier, base, nruns, workers, soft_deadline_s, start=0):
 
         def submit_more():
             nonlocal exhausted
-            while not exhausted and len(pending) < workers * 2:
+            while not exhausted and len(pending) < workers + 4:
                 if time.time() - t0 > soft_deadline_s:
                     agg['stopped_by_deadline'] = True
                     exhausted = True
